@@ -1338,4 +1338,226 @@ theorem Reach.inv {peer : Nat → Nat} {n : Nat} {s : Sys} (h : Reach peer n s) 
   | init cfg => exact init_inv peer cfg
   | step l _ hst ih => exact step_inv l ih hst
 
+/-! ### never late, never early -/
+
+/-- The protocol has polled its tracker at this instant: every sleep is started and incomplete. -/
+def Polled (svc : Svc) (now : Nat) : Prop := ∀ t ∈ svc.tr.timers, ∃ d, t.deadline = some d ∧ now < d
+
+theorem SvcInv.holder {peer : Nat → Nat} {now : Nat} {svc : Svc} (h : SvcInv peer now svc) (c : Nat)
+    (hpos : 0 < svc.holds c) :
+    ∃ la, aget svc.tr.last c = some la ∧ la ≤ now ∧ now ≤ la + svc.T ∧ (Polled svc now → now < la + svc.T) := by
+  cases hla : aget svc.tr.last c with
+  | none => exact absurd hla (h.held c hpos)
+  | some la =>
+    obtain ⟨hle, t, ht, _, hg⟩ := h.tr.tracked c la hla
+    refine ⟨la, rfl, hle, ?_, ?_⟩
+    · unfold Good at hg
+      cases hd : t.deadline with
+      | none => rw [hd] at hg; simp only [] at hg; omega
+      | some d => rw [hd] at hg; simp only [] at hg; have := h.tr.notOverdue t ht d hd; omega
+    · intro hp
+      obtain ⟨d, hd, hlt⟩ := hp t ht
+      unfold Good at hg
+      rw [hd] at hg; simp only [] at hg; omega
+
+theorem pollKeepAlive_polled {peer : Nat → Nat} {now : Nat} (s : Svc) (h : SvcInv peer now s) :
+    Polled (s.pollKeepAlive now) now := pollTimers_settled s.T now s.tr h.tr
+
+/-- What a step does to the protocols: nothing, or exactly one of them runs one of its operations. -/
+def SvcChange (s : Sys) (l : Label) (j : Nat) (svc svc' : Svc) : Prop :=
+  (∃ p up send sid, l = .open j p ∧ svc' = (svc.openSubstream p s.now up send sid).1) ∨
+  (l = .deliver j ∧ ((∃ p c, svc' = (svc.onEstablished p c s.now).1) ∨ (∃ p c, svc' = (svc.onClosed p c).1) ∨
+    (∃ p c, svc' = svc.onSubstreamOpened p c s.now))) ∨
+  (l = .poll j ∧ svc' = svc.pollKeepAlive s.now)
+
+theorem step_svcs {peer : Nat → Nat} {n n' : Nat} {s s' : Sys} (l : Label) (hst : s.step peer n l = some (n', s')) :
+    s'.svcs = s.svcs ∨ ∃ j svc svc', s.svcs[j]? = some svc ∧ s'.svcs = setSvc s.svcs j svc' ∧ SvcChange s l j svc svc' := by
+  cases l with
+  | established c =>
+    simp only [Sys.step] at hst
+    split at hst
+    · simp only [Option.some.injEq, Prod.mk.injEq] at hst
+      obtain ⟨_, rfl⟩ := hst; exact Or.inl rfl
+    · cases hst
+  | closed c =>
+    simp only [Sys.step] at hst
+    split at hst
+    · simp only [Option.some.injEq, Prod.mk.injEq] at hst
+      obtain ⟨_, rfl⟩ := hst; exact Or.inl rfl
+    · cases hst
+  | «open» i p =>
+    simp only [Sys.step, Option.some.injEq, Prod.mk.injEq] at hst
+    obtain ⟨_, rfl⟩ := hst
+    apply open_shape s i p (fun t => t.svcs = s.svcs ∨ ∃ j svc svc', s.svcs[j]? = some svc ∧
+      t.svcs = setSvc s.svcs j svc' ∧ SvcChange s (Label.open i p) j svc svc')
+    · exact Or.inl rfl
+    · intro svc up send sid s' hsv h1 _ _
+      exact Or.inr ⟨i, svc, _, hsv, h1, Or.inl ⟨p, up, send, sid, rfl, rfl⟩⟩
+  | recv c =>
+    simp only [Sys.step, Option.some.injEq, Prod.mk.injEq] at hst
+    obtain ⟨_, rfl⟩ := hst
+    unfold Sys.recv
+    split <;> exact Or.inl rfl
+  | subOpen c sid =>
+    simp only [Sys.step, Option.map_eq_some_iff, Prod.mk.injEq] at hst
+    obtain ⟨s1, hs1, _, rfl⟩ := hst
+    unfold Sys.subOpen at hs1
+    split at hs1
+    · simp only [Option.some.injEq] at hs1
+      subst hs1; exact Or.inl rfl
+    · cases hs1
+  | subFail c sid =>
+    simp only [Sys.step, Option.map_eq_some_iff, Prod.mk.injEq] at hst
+    obtain ⟨s1, hs1, _, rfl⟩ := hst
+    unfold Sys.subFail at hs1
+    split at hs1
+    · simp only [Option.some.injEq] at hs1
+      subst hs1; exact Or.inl rfl
+    · cases hs1
+  | subInbound c i =>
+    simp only [Sys.step, Option.some.injEq, Prod.mk.injEq] at hst
+    obtain ⟨_, rfl⟩ := hst
+    unfold Sys.subInbound
+    split
+    · split <;> exact Or.inl rfl
+    · exact Or.inl rfl
+  | dropSub i k =>
+    simp only [Sys.step, Option.map_eq_some_iff, Prod.mk.injEq] at hst
+    obtain ⟨s1, hs1, _, rfl⟩ := hst
+    unfold Sys.dropSub at hs1
+    simp only [] at hs1
+    split at hs1
+    · simp only [Option.some.injEq] at hs1
+      subst hs1; exact Or.inl rfl
+    · cases hs1
+  | deliver i =>
+    simp only [Sys.step] at hst
+    cases hsp : splitFirst i s.inbox with
+    | none => rw [hsp] at hst; cases hst
+    | some v =>
+      obtain ⟨pre, m, post⟩ := v
+      rw [hsp] at hst
+      simp only [Option.some.injEq, Prod.mk.injEq] at hst
+      obtain ⟨_, rfl⟩ := hst
+      unfold Sys.deliver
+      simp only []
+      cases hsv : s.svcs[i]? with
+      | none => exact Or.inl rfl
+      | some svc =>
+        simp only []
+        cases m with
+        | established p c => exact Or.inr ⟨i, svc, _, hsv, rfl, Or.inr (Or.inl ⟨rfl, Or.inl ⟨p, c, rfl⟩⟩)⟩
+        | closed p c => exact Or.inr ⟨i, svc, _, hsv, rfl, Or.inr (Or.inl ⟨rfl, Or.inr (Or.inl ⟨p, c, rfl⟩)⟩)⟩
+        | subOpened p dir c life =>
+          exact Or.inr ⟨i, svc, _, hsv, rfl, Or.inr (Or.inl ⟨rfl, Or.inr (Or.inr ⟨p, c, rfl⟩)⟩)⟩
+        | subFailed sid => exact Or.inl rfl
+  | poll i =>
+    simp only [Sys.step] at hst
+    cases hsv : s.svcs[i]? with
+    | none => rw [hsv] at hst; cases hst
+    | some svc =>
+      rw [hsv] at hst
+      simp only [Option.some.injEq, Prod.mk.injEq] at hst
+      obtain ⟨_, rfl⟩ := hst
+      exact Or.inr ⟨i, svc, _, hsv, rfl, Or.inr (Or.inr ⟨rfl, rfl⟩)⟩
+  | advance dt =>
+    simp only [Sys.step] at hst
+    split at hst
+    · simp only [Option.some.injEq, Prod.mk.injEq] at hst
+      obtain ⟨_, rfl⟩ := hst; exact Or.inl rfl
+    · cases hst
+
+/-- **Never early.** In a reachable state, whatever step the system takes: if protocol `i` held an active
+handle of `c` before the step and holds none after it, then either the step was protocol `i` processing a
+`ConnectionClosed` message (the connection-closed path, not the idle mechanism), or it was protocol `i`
+polling its keep-alive tracker at a time `≥ last_activity_i(c) + T_i`. -/
+theorem never_early {peer : Nat → Nat} {n n' : Nat} {s s' : Sys} (hr : Reach peer n s) (l : Label)
+    (hst : s.step peer n l = some (n', s')) (i : Nat) (svc svc' : Svc) (hi : s.svcs[i]? = some svc)
+    (hi' : s'.svcs[i]? = some svc') (c : Nat) (hpos : 0 < svc.holds c) (hz : svc'.holds c = 0) :
+    (l = .deliver i ∧ ∃ p c', svc' = (svc.onClosed p c').1) ∨
+    (l = .poll i ∧ svc' = svc.pollKeepAlive s.now ∧ ∃ la, aget svc.tr.last c = some la ∧ la + svc.T ≤ s.now) := by
+  have hinv := hr.inv
+  have hsi := hinv.svc svc (List.mem_of_getElem? hi)
+  rcases step_svcs l hst with he | ⟨j, x, x', hj, he, hch⟩
+  · rw [he, hi] at hi'; cases hi'; omega
+  · rw [he] at hi'
+    unfold setSvc at hi'
+    rw [List.getElem?_set] at hi'
+    by_cases hji : j = i
+    · subst hji
+      rw [hi] at hj; cases hj
+      simp only [if_true] at hi'
+      split at hi'
+      · cases hi'
+        rcases hch with ⟨p, up, send, sid, _, rfl⟩ | ⟨hl, ⟨p, c', rfl⟩ | ⟨p, c', rfl⟩ | ⟨p, c', rfl⟩⟩ | ⟨hl, rfl⟩
+        · have := (openSubstream_inv svc p up send sid hsi).2.2 c hpos; omega
+        · have := onEstablished_keeps svc hsi.keys p c' s.now c hpos; omega
+        · exact Or.inl ⟨hl, p, c', rfl⟩
+        · have := (onSubstreamOpened_inv svc p c' hsi).2.2 c hpos; omega
+        · right
+          rcases pollKeepAlive_drop svc hsi c hpos with ⟨_, hla⟩ | ⟨hsame, _⟩
+          · exact ⟨hl, rfl, hla⟩
+          · omega
+      · cases hi'
+    · simp only [hji, if_false] at hi'
+      rw [hi] at hi'; cases hi'; omega
+
+theorem step_svcs_length {peer : Nat → Nat} {n n' : Nat} {s s' : Sys} (l : Label)
+    (hst : s.step peer n l = some (n', s')) : s'.svcs.length = s.svcs.length := by
+  rcases step_svcs l hst with he | ⟨j, x, x', _, he, _⟩
+  · rw [he]
+  · rw [he]; simp [setSvc]
+
+theorem handles_pos_iff (svcs : List Svc) (c : Nat) : 0 < handles svcs c ↔ ∃ svc ∈ svcs, 0 < svc.holds c := by
+  rw [handles_eq, sum_pos_iff]
+  simp only [List.mem_map]
+  constructor
+  · rintro ⟨x, ⟨e, he, rfl⟩, hx⟩; exact ⟨e, he, hx⟩
+  · rintro ⟨e, he, hx⟩; exact ⟨_, ⟨e, he, rfl⟩, hx⟩
+
+/-- Connection level: with no permit around, the step that drops the LAST strong sender of `c` is a
+close report being processed, or some protocol's keep-alive poll at `≥ last_activity + T` of that protocol. -/
+theorem last_holder_never_early {peer : Nat → Nat} {n n' : Nat} {s s' : Sys} (hr : Reach peer n s) (l : Label)
+    (hst : s.step peer n l = some (n', s')) (c : Nat) (hperm : permits s c = 0)
+    (h0 : exits s c = false) (h1 : exits s' c = true) :
+    ∃ i svc, s.svcs[i]? = some svc ∧ 0 < svc.holds c ∧
+      ((l = .deliver i ∧ ∃ p c', s'.svcs[i]? = some (svc.onClosed p c').1) ∨
+       (l = .poll i ∧ ∃ la, aget svc.tr.last c = some la ∧ la + svc.T ≤ s.now)) := by
+  have hpos : 0 < handles s.svcs c := by
+    unfold exits strong at h0
+    simp only [beq_eq_false_iff_ne, ne_eq] at h0
+    omega
+  obtain ⟨svc, hsvc, hh⟩ := (handles_pos_iff _ _).mp hpos
+  obtain ⟨i, hlt, hget⟩ := List.getElem_of_mem hsvc
+  have hi : s.svcs[i]? = some svc := by rw [List.getElem?_eq_getElem hlt, hget]
+  have hlen := step_svcs_length l hst
+  have hlt' : i < s'.svcs.length := by omega
+  have hi' : s'.svcs[i]? = some s'.svcs[i] := List.getElem?_eq_getElem hlt'
+  have hz : s'.svcs[i].holds c = 0 := by
+    unfold exits strong at h1
+    simp only [beq_iff_eq] at h1
+    have h2 : handles s'.svcs c = 0 := by omega
+    by_cases hzz : s'.svcs[i].holds c = 0
+    · exact hzz
+    · have := (handles_pos_iff s'.svcs c).mpr ⟨_, List.getElem_mem hlt', Nat.pos_of_ne_zero hzz⟩
+      omega
+  refine ⟨i, svc, hi, hh, ?_⟩
+  rcases never_early hr l hst i svc _ hi hi' c hh hz with ⟨hl, p, c', he⟩ | ⟨hl, _, hla⟩
+  · exact Or.inl ⟨hl, p, c', by rw [hi', he]⟩
+  · exact Or.inr ⟨hl, hla⟩
+
+/-- Connection level: nothing open, every protocol polled at this instant, and whatever activity any
+protocol still remembers is at least its timeout ago ⇒ the loop exits. -/
+theorem idle_exits {peer : Nat → Nat} {n : Nat} {s : Sys} (hr : Reach peer n s) (c : Nat) (hperm : permits s c = 0)
+    (hidle : ∀ svc ∈ s.svcs, Polled svc s.now ∧ ∀ la, aget svc.tr.last c = some la → la + svc.T ≤ s.now) :
+    exits s c = true := by
+  have hinv := hr.inv
+  by_cases hz : handles s.svcs c = 0
+  · unfold exits strong; simp [hz, hperm]
+  · obtain ⟨svc, hsvc, hh⟩ := (handles_pos_iff _ _).mp (Nat.pos_of_ne_zero hz)
+    obtain ⟨la, hla, _, _, hp⟩ := (hinv.svc svc hsvc).holder c hh
+    have := hp (hidle svc hsvc).1
+    have := (hidle svc hsvc).2 la hla
+    omega
+
 end Litep2pVerif.Service.KA
